@@ -8,7 +8,7 @@ THEOREMS = ["Props.C19.c19_cache_roundtrip_csv", "Props.C19.c19_cache_roundtrip"
 def run(check, tier):
     import jobs_suite as S
 
-    n = 48 if tier == "quick" else 1500
+    n = 60 if tier == "quick" else 1500
     cases = [S.gen_case(check.seed, i) for i in range(n)]
     results = run_cases("jobs_suite", "case_jobs", cases, chunk=1)
     njobs = 0
